@@ -29,6 +29,8 @@ def _cond(wn, c):
             return ct.SimTimeCondition(wn, c['rel'], float(c['thr']), repeat=int(c['repeat']))
         return ct.SimTimeCondition(wn, c['rel'], float(c['thr']))
     if t == 'clock':
+        if c.get('once') or c.get('first_day'):
+            return ct.TimeOfDayCondition(wn, c['rel'], float(c['thr']), repeat=not c.get('once'), first_day=int(c.get('first_day', 0)))
         return ct.TimeOfDayCondition(wn, c['rel'], float(c['thr']))
     if t == 'level':
         return ct.ValueCondition(wn.get_node(c['tank']), c.get('attr', 'level'), c['rel'], float(c['thr']))
